@@ -129,7 +129,8 @@ namespace OP2Utility::XFile
 		return DirInternal(
 			directory,
 			[&filenameRegex](const std::string& filename) {
-				return std::regex_search(filename, filenameRegex);
+				// Note: Match the filename only, not the directories leading to it
+				return std::regex_search(GetFilename(filename), filenameRegex);
 			}
 		);
 	}
@@ -159,7 +160,8 @@ namespace OP2Utility::XFile
 		return DirInternal(
 			directory,
 			[&filenameRegex](const std::string& filename) {
-				return std::regex_search(filename, filenameRegex) && IsFile(filename);
+				// Note: Match the filename only, not the directories leading to it
+				return std::regex_search(GetFilename(filename), filenameRegex) && IsFile(filename);
 			}
 		);
 	}
